@@ -514,3 +514,166 @@ pub(crate) fn check_client_packet(b: &[u8], max_props: usize, max_topics: usize)
     }
     Parsed { ok: true, typ, flags, packet_id, total_len: b.len() }
 }
+
+// ---------------------------------------------------------------------------------------------
+// symbolic Property values
+// ---------------------------------------------------------------------------------------------
+use crate::Property;
+
+pub(crate) const STR3: &str = "abc";
+pub(crate) const BIN3: &[u8] = &[0xC3, 0x28, 0x00]; // deliberately not UTF-8: binary data is opaque
+
+/// `&STR3[..n]` for a symbolic n <= 3.
+pub(crate) fn any_str3() -> &'static str {
+    let n: usize = kani::any();
+    kani::assume(n <= 3);
+    &STR3[..n]
+}
+pub(crate) fn any_bin3() -> &'static [u8] {
+    let n: usize = kani::any();
+    kani::assume(n <= 3);
+    &BIN3[..n]
+}
+
+/// Property of symbolic kind (index 0..27) with symbolic scalar value and the given strings.
+pub(crate) fn prop_of_kind(kind: u8, s: &'static str, s2: &'static str, b: &'static [u8]) -> Property<'static> {
+    let v8: u8 = kani::any();
+    let v16: u16 = kani::any();
+    let v32: u32 = kani::any();
+    match kind {
+        0 => Property::PayloadFormatIndicator(v8),
+        1 => Property::MessageExpiryInterval(v32),
+        2 => Property::ContentType(s),
+        3 => Property::ResponseTopic(s),
+        4 => Property::CorrelationData(b),
+        5 => Property::SubscriptionIdentifier(v32),
+        6 => Property::SessionExpiryInterval(v32),
+        7 => Property::AssignedClientIdentifier(s),
+        8 => Property::ServerKeepAlive(v16),
+        9 => Property::AuthenticationMethod(s),
+        10 => Property::AuthenticationData(b),
+        11 => Property::RequestProblemInformation(v8),
+        12 => Property::WillDelayInterval(v32),
+        13 => Property::RequestResponseInformation(v8),
+        14 => Property::ResponseInformation(s),
+        15 => Property::ServerReference(s),
+        16 => Property::ReasonString(s),
+        17 => Property::ReceiveMaximum(v16),
+        18 => Property::TopicAliasMaximum(v16),
+        19 => Property::TopicAlias(v16),
+        20 => Property::MaximumQoS(v8),
+        21 => Property::RetainAvailable(v8),
+        22 => Property::UserProperty(s, s2),
+        23 => Property::MaximumPacketSize(v32),
+        24 => Property::WildcardSubscriptionAvailable(v8),
+        25 => Property::SubscriptionIdentifierAvailable(v8),
+        _ => Property::SharedSubscriptionAvailable(v8),
+    }
+}
+
+pub(crate) const N_PROP_KINDS: u8 = 27;
+
+/// MQTT 5 identifier of the property (independent transcription of table 2-4).
+pub(crate) fn ref_prop_id(p: &Property<'_>) -> u32 {
+    match p {
+        Property::PayloadFormatIndicator(_) => 0x01,
+        Property::MessageExpiryInterval(_) => 0x02,
+        Property::ContentType(_) => 0x03,
+        Property::ResponseTopic(_) => 0x08,
+        Property::CorrelationData(_) => 0x09,
+        Property::SubscriptionIdentifier(_) => 0x0B,
+        Property::SessionExpiryInterval(_) => 0x11,
+        Property::AssignedClientIdentifier(_) => 0x12,
+        Property::ServerKeepAlive(_) => 0x13,
+        Property::AuthenticationMethod(_) => 0x15,
+        Property::AuthenticationData(_) => 0x16,
+        Property::RequestProblemInformation(_) => 0x17,
+        Property::WillDelayInterval(_) => 0x18,
+        Property::RequestResponseInformation(_) => 0x19,
+        Property::ResponseInformation(_) => 0x1A,
+        Property::ServerReference(_) => 0x1C,
+        Property::ReasonString(_) => 0x1F,
+        Property::ReceiveMaximum(_) => 0x21,
+        Property::TopicAliasMaximum(_) => 0x22,
+        Property::TopicAlias(_) => 0x23,
+        Property::MaximumQoS(_) => 0x24,
+        Property::RetainAvailable(_) => 0x25,
+        Property::UserProperty(_, _) => 0x26,
+        Property::MaximumPacketSize(_) => 0x27,
+        Property::WildcardSubscriptionAvailable(_) => 0x28,
+        Property::SubscriptionIdentifierAvailable(_) => 0x29,
+        Property::SharedSubscriptionAvailable(_) => 0x2A,
+    }
+}
+
+/// Reference encoding of one property into `out`; returns the length (independent of the crate's
+/// serializer: written from the MQTT 5 data representation rules).
+pub(crate) fn ref_encode_prop(p: &Property<'_>, out: &mut [u8; 24]) -> usize {
+    let mut n = 0usize;
+    fn put(out: &mut [u8; 24], n: &mut usize, b: u8) {
+        out[*n] = b;
+        *n += 1;
+    }
+    fn put_bin(out: &mut [u8; 24], n: &mut usize, b: &[u8]) {
+        put(out, n, (b.len() >> 8) as u8);
+        put(out, n, b.len() as u8);
+        let mut i = 0;
+        while i < b.len() {
+            put(out, n, b[i]);
+            i += 1;
+        }
+    }
+    put(out, &mut n, ref_prop_id(p) as u8);
+    match p {
+        Property::PayloadFormatIndicator(v)
+        | Property::RequestProblemInformation(v)
+        | Property::RequestResponseInformation(v)
+        | Property::MaximumQoS(v)
+        | Property::RetainAvailable(v)
+        | Property::WildcardSubscriptionAvailable(v)
+        | Property::SubscriptionIdentifierAvailable(v)
+        | Property::SharedSubscriptionAvailable(v) => put(out, &mut n, *v),
+        Property::ServerKeepAlive(v) | Property::ReceiveMaximum(v) | Property::TopicAliasMaximum(v) | Property::TopicAlias(v) => {
+            put(out, &mut n, (*v >> 8) as u8);
+            put(out, &mut n, *v as u8);
+        }
+        Property::MessageExpiryInterval(v)
+        | Property::SessionExpiryInterval(v)
+        | Property::WillDelayInterval(v)
+        | Property::MaximumPacketSize(v) => {
+            put(out, &mut n, (*v >> 24) as u8);
+            put(out, &mut n, (*v >> 16) as u8);
+            put(out, &mut n, (*v >> 8) as u8);
+            put(out, &mut n, *v as u8);
+        }
+        Property::SubscriptionIdentifier(v) => {
+            // all four candidate bytes are written at concrete positions (a write at a symbolic
+            // index would make every earlier byte of `out` symbolic for CBMC's constant folding);
+            // only the length is symbolic
+            let x = *v;
+            let b0 = (x & 0x7F) as u8;
+            let b1 = ((x >> 7) & 0x7F) as u8;
+            let b2 = ((x >> 14) & 0x7F) as u8;
+            let b3 = ((x >> 21) & 0x7F) as u8;
+            let len = if x < 0x80 { 1 } else if x < 0x4000 { 2 } else if x < 0x20_0000 { 3 } else { 4 };
+            out[n] = if len > 1 { b0 | 0x80 } else { b0 };
+            out[n + 1] = if len > 2 { b1 | 0x80 } else if len > 1 { b1 } else { 0 };
+            out[n + 2] = if len > 3 { b2 | 0x80 } else if len > 2 { b2 } else { 0 };
+            out[n + 3] = if len > 3 { b3 } else { 0 };
+            n += len;
+        }
+        Property::ContentType(s)
+        | Property::ResponseTopic(s)
+        | Property::AssignedClientIdentifier(s)
+        | Property::AuthenticationMethod(s)
+        | Property::ResponseInformation(s)
+        | Property::ServerReference(s)
+        | Property::ReasonString(s) => put_bin(out, &mut n, s.as_bytes()),
+        Property::CorrelationData(b) | Property::AuthenticationData(b) => put_bin(out, &mut n, b),
+        Property::UserProperty(k, v) => {
+            put_bin(out, &mut n, k.as_bytes());
+            put_bin(out, &mut n, v.as_bytes());
+        }
+    }
+    n
+}
